@@ -149,16 +149,18 @@ PlatIO == << <<"led", 0, << <<"", <<"A0">> >> >> >>,
              <<"ser", 0, << <<"tx", <<"B0">> >>, <<"rx", <<"B1">> >> >> >> >>
 PlatCfgs == { <<"io3", PlatIO>> }
 
-(* calls <<op, name, number (-1 = None), loose>>                             *)
+(* calls <<op, name, subsignal ("" = none; lookup_request("name:sub")),       *)
+(* number (-1 = None), loose>>                                               *)
 PlatAlpha ==
   LET ReqArgs == {<<"led", -1>>, <<"led", 0>>, <<"led", 1>>, <<"led", 2>>, <<"ser", -1>>, <<"ser", 0>>, <<"nope", -1>>}
-      LkArgs  == {<<"led", -1>>, <<"led", 0>>, <<"led", 1>>, <<"ser", -1>>, <<"ser:tx", -1>>, <<"ser:tx", 0>>, <<"nope", -1>>}
-  IN  {<<"request", a[1], a[2], 0>> : a \in ReqArgs}
-      \cup {<<"request", a[1], a[2], 1>> : a \in IF Quick THEN {<<"led", -1>>, <<"led", 2>>, <<"nope", -1>>} ELSE ReqArgs}
-      \cup {<<"request_all", nm, -1, 0>> : nm \in {"led", "ser", "nope"}}
-      \cup {<<"request_remaining", nm, -1, 0>> : nm \in {"led"}}
-      \cup {<<"lookup_request", a[1], a[2], 0>> : a \in LkArgs}
-      \cup {<<"lookup_request", a[1], a[2], 1>> : a \in IF Quick THEN {<<"led", 1>>, <<"nope", -1>>} ELSE LkArgs}
+      LkArgs  == {<<"led", "", -1>>, <<"led", "", 0>>, <<"led", "", 1>>, <<"ser", "", -1>>, <<"ser", "tx", -1>>,
+                  <<"ser", "tx", 0>>, <<"nope", "", -1>>}
+  IN  {<<"request", a[1], "", a[2], 0>> : a \in ReqArgs}
+      \cup {<<"request", a[1], "", a[2], 1>> : a \in IF Quick THEN {<<"led", -1>>, <<"led", 2>>, <<"nope", -1>>} ELSE ReqArgs}
+      \cup {<<"request_all", nm, "", -1, 0>> : nm \in {"led", "ser", "nope"}}
+      \cup {<<"request_remaining", nm, "", -1, 0>> : nm \in {"led"}}
+      \cup {<<"lookup_request", a[1], a[2], a[3], 0>> : a \in LkArgs}
+      \cup {<<"lookup_request", a[1], a[2], a[3], 1>> : a \in IF Quick THEN {<<"led", "", 1>>, <<"nope", "", -1>>} ELSE LkArgs}
 
 PlatScenarios ==
   { [id |-> "plat", cfgs |-> PlatCfgs, pres |-> {<<>>}, len |-> IF Quick THEN 3 ELSE 4, alpha |-> PlatAlpha] }
@@ -173,7 +175,7 @@ Alpha(hh) == IF Family = "loc" THEN LocAlphaOf(sid, cfg, hh) ELSE ScOf[sid].alph
 Resolve(hh, t) == CASE Family = "bus"  -> BusResolve(hh, t)
                     [] Family = "loc"  -> LocResolve(hh, t)
                     [] Family = "plat" -> t
-Usable(hh, t) == Family = "plat" \/ t[2] <= Len(hh)      \* dup refers to an earlier call
+Usable(hh, t) == IF Family = "plat" THEN TRUE ELSE t[2] <= Len(hh)      \* dup refers to an earlier call
 
 RECURSIVE ResolveAll(_, _)
 ResolveAll(hh, ts) == IF ts = <<>> THEN hh ELSE ResolveAll(Append(hh, Resolve(hh, Head(ts))), Tail(ts))
